@@ -53,6 +53,7 @@ def describe(tier, seed):
 
 def units(tier, seed):
     out = [dict(kind="small", platform=p) for p in G.PLATFORMS]
+    out += [dict(kind="ncwb", platform=p) for p in G.PLATFORMS]
     out += [dict(kind="ace", platform=p, base=b) for p in G.PLATFORMS for b in range(3)]
     out += [dict(kind="acl", platform=p, first=f) for p in G.PLATFORMS for f in range(12)]
     for si in range(len(seed_acls(seed))):
@@ -66,6 +67,8 @@ def run_unit(unit, ctx):
     k = unit["kind"]
     if k == "small":
         _small(ctx, unit["platform"])
+    elif k == "ncwb":
+        _ncwb(ctx, unit["platform"])
     elif k == "ace":
         _aces(ctx, unit["platform"], unit["base"])
     elif k == "acl":
@@ -245,6 +248,33 @@ def _small(ctx, only):
             break
         _copy_case("Wildcard", w, dict(max_ncwb=5), ctx)
     ctx.sample("small", "Port/Protocol/Option/Wildcard/Address/AddressAg/AddrGroup/Remark")
+
+
+def _ncwb(ctx, plat):
+    """Every class that carries the non-contiguous-bits limit, built with a non-default limit
+    (below and above the default 16): the copy keeps the limit everywhere and stays buildable."""
+    head = PR.header(plat)
+    for limit, wild in ((4, "0.0.5.0"), (4, "0.0.0.255"), (20, "1.255.255.0"), (0, "0.0.0.3")):
+        adr = f"10.0.0.0 {wild}" if wild != "1.255.255.0" else f"0.0.0.0 {wild}"
+        kw = dict(platform=plat, max_ncwb=limit)
+        _copy_case("Wildcard", adr, dict(max_ncwb=limit), ctx)
+        _copy_case("Address", adr, kw, ctx)
+        _copy_case("Ace", f"permit tcp {adr} any eq 80", kw, ctx)
+        _copy_case("Ace", f"permit ip any {adr}", kw, ctx)
+        body = [f"remark = a", f"permit ip {adr} any", "remark = b", f"deny tcp any {adr} eq 22"]
+        _copy_case("AceGroup", "\n".join(body), kw, ctx)
+        _copy_case("AceGroup", "\n".join(body[1:2]), kw, ctx)
+        text = head + "\n" + "\n".join(" " + b for b in body)
+        _copy_case("Acl", text, kw, ctx)
+        _copy_case("Acl", text, dict(kw, group_by="= "), ctx)
+        _copy_case("Acl", text, dict(kw, group_by="= "), ctx, prepare=_append_loose)
+        if plat == "nxos":
+            _copy_case("AddressAg", "10 " + adr, kw, ctx)
+            _copy_case("AddrGroup", f"object-group ip address G\n 10 {adr}\n 20 host 10.0.0.1", kw, ctx)
+        else:
+            _copy_case("AddrGroup", "object-group network G\n host 10.0.0.1\n 10.0.0.0 255.255.255.0", kw,
+                       ctx)
+    ctx.sample("ncwb", "non-default max_ncwb 0/4/20 at every level")
 
 
 def _aces(ctx, only, bi):
